@@ -1,7 +1,8 @@
 from .common2 import *
 def run(tier, a=None):
     specs = [{'src': 'h_c02.cpp', 'defs': ['TAG=' + t]} for t in tags(tier)]
+    specs += [{'src': 'h_c02.cpp', 'defs': ['TAG=' + t, 'ZERO_ROT'], 'filter': 'c02_ode.*'} for t in tags(tier) if not t.startswith('R')]
     tr = [{'src': 'h_trunc.cpp', 'defs': ['TAG=' + t], 'filter': 'tr_exp.*', 'ap_prefixes': ['exp(']} for t in tags(tier) if not t.startswith('R')]
     return combined('C02', tier, a, specs, tr,
-        'EXACT (generic branch): d/ds M(exp(s t))|_{s=1} = hat(t) M(exp t) for symbolic t, derivative obtained by running the real exp over dual numbers; exp(0)=Identity. TRUNC (Taylor branch, 0<theta^2<=eps): every coefficient of exp on the Taylor branch is within 1e-12*max(1,B) of the generic closed form for linear parts in the box |.|<=B, B in {1,1e6}, decided per monomial by z3 with alternating-series enclosures.',
+        'EXACT (generic branch): d/ds M(exp(s t))|_{s=1} = hat(t) M(exp t) for symbolic t, derivative obtained by running the real exp over dual numbers; the same identity at exactly zero rotation with symbolic linear parts (Taylor branch, exact there); exp(0)=Identity. TRUNC (Taylor branch, 0<theta^2<=eps): every coefficient of exp on the Taylor branch is within 1e-12*max(1,B) of the generic closed form for linear parts in the box |.|<=B, B in {1,1e6}, decided per monomial by z3 with alternating-series enclosures.',
         ['generic branch: no magnitude bound (real arithmetic)', 'Taylor region: linear components bounded by B in {1, 1e6}; tolerance 1e-12*max(1,B)', 'groups: ' + ','.join(tags(tier))])
